@@ -9,6 +9,7 @@ COQ_PROJECTS = vc.COQ_PROJECTS
 TRUSTED = vcheck.STD_TRUSTED + vc.TRUSTED_VALUES
 
 KINDS = ["node", "pred", "lit", "obj", "triple"]
+ALLK = KINDS + ["blit"]   # blit = literal.NewBoundedBuilder(2).Parse
 
 
 # ---------------------------------------------------------------- property on the implementation's observations
@@ -17,7 +18,7 @@ def failures_of(r, ill=False):
     out = []
     k = r["kind"]
     if k == "parse":
-        for p in KINDS:
+        for p in ALLK:
             o = r["out"][p]
             if o["c"] == "panic":
                 out.append({"class": "panic", "parser": p, "input": vc.show(r["in"]), "in": r["in"]})
@@ -114,7 +115,10 @@ def run(ctx):
             uniq.append(r)
     rows = uniq
     rows += vc.hrows(["-mode", "reader", "-seed", seed, "-n", "2500" if thorough else "150"])
-    bad, dom, ill = vc.model_eval(ctx, "cases_c15", rows)
+    big = [r for r in rows if r.get("nomodel")]      # reader texts > 4 KiB / > 64 KiB: checked on the observations only
+    rows = [r for r in rows if not r.get("nomodel")]
+    bad, dom, ill = vc.model_eval(ctx, "cases_c15", rows, shard=2500 if thorough else 600)
+    rows = rows + big
     for i in bad[:5]:
         ctx.violation({"kind": "model-vs-implementation", "case": vc.strip(rows[i]),
                        "explain": "the Gallina parsers (evaluated in Coq with the library answers shipped by the harness) and the Go code disagree"})
